@@ -213,7 +213,7 @@ def run_many(cases: list, timeout: float = 5.0, workers: int = None) -> list:
 
 def compile_case(isa, files: dict, main='main.asm', start=None, end=None, fill=None, pretty=None,
                  defines=(), include_dirs=(), isa_name='isa.yaml', extra_files=None, output='out.bin',
-                 presentinel=False) -> dict:
+                 presentinel=False, extra_argv=()) -> dict:
     """Build a CLI case. `isa` is a dict (dumped as YAML or JSON by extension) or a str."""
     import yaml
     fs = dict(files)
@@ -238,6 +238,7 @@ def compile_case(isa, files: dict, main='main.asm', start=None, end=None, fill=N
         argv += ['-D', d]
     for d in include_dirs:
         argv += ['-I', '{W}/' + d]
+    argv += list(extra_argv)
     if presentinel:
         fs[output] = 'SENTINEL'
     return {'files': fs, 'argv': argv, 'collect': [output, 'pretty.txt']}
